@@ -10,6 +10,8 @@ import (
 	"github.com/tink-crypto/tink-go/v2/jwt/jwtrsassapss"
 	"github.com/tink-crypto/tink-go/v2/key"
 	tinkpb "github.com/tink-crypto/tink-go/v2/proto/tink_go_proto"
+	"github.com/tink-crypto/tink-go/v2/signature/rsassapkcs1"
+	"github.com/tink-crypto/tink-go/v2/signature/rsassapss"
 	"verif/ref"
 )
 
@@ -220,10 +222,13 @@ func init() {
 					if err != nil {
 						return nil, err
 					}
-					pub2, _ := mk()
-					k, err := jwtrsassapkcs1.NewPrivateKey(jwtrsassapkcs1.PrivateKeyOpts{PublicKey: pub2, D: sb(pad(m.K.D, m.Pad)), P: sb(pad(m.K.P, m.Pad)), Q: sb(pad(m.K.Q, m.Pad))})
-					if err != nil {
-						return nil, err
+					var k key.Key
+					if !m.PubOnly {
+						pub2, _ := mk()
+						k, err = jwtrsassapkcs1.NewPrivateKey(jwtrsassapkcs1.PrivateKeyOpts{PublicKey: pub2, D: sb(pad(m.K.D, m.Pad)), P: sb(pad(m.K.P, m.Pad)), Q: sb(pad(m.K.Q, m.Pad))})
+						if err != nil {
+							return nil, err
+						}
 					}
 					out = append(out, &KeyCase{Fam: f, P: p, Variant: v, ID: idFor(v, id), Key: k, Pub: pub, Mat: rsaMats(m),
 						Desc: fmt.Sprintf("JwtRsaSsaPkcs1 %d e=%d %v %v kid=%s id=%#x material=%s", pp.ModulusSizeInBits(), pp.PublicExponent(), pp.Algorithm(), pp.KIDStrategy(), kidDesc(kid), idFor(v, id), m.Shape)})
@@ -276,10 +281,13 @@ func init() {
 					if err != nil {
 						return nil, err
 					}
-					pub2, _ := mk()
-					k, err := jwtrsassapss.NewPrivateKey(jwtrsassapss.PrivateKeyOpts{PublicKey: pub2, D: sb(pad(m.K.D, m.Pad)), P: sb(pad(m.K.P, m.Pad)), Q: sb(pad(m.K.Q, m.Pad))})
-					if err != nil {
-						return nil, err
+					var k key.Key
+					if !m.PubOnly {
+						pub2, _ := mk()
+						k, err = jwtrsassapss.NewPrivateKey(jwtrsassapss.PrivateKeyOpts{PublicKey: pub2, D: sb(pad(m.K.D, m.Pad)), P: sb(pad(m.K.P, m.Pad)), Q: sb(pad(m.K.Q, m.Pad))})
+						if err != nil {
+							return nil, err
+						}
 					}
 					out = append(out, &KeyCase{Fam: f, P: p, Variant: v, ID: idFor(v, id), Key: k, Pub: pub, Mat: rsaMats(m),
 						Desc: fmt.Sprintf("JwtRsaSsaPss %d e=%d %v %v kid=%s id=%#x material=%s", pp.ModulusSizeInBits(), pp.PublicExponent(), pp.Algorithm(), pp.KIDStrategy(), kidDesc(kid), idFor(v, id), m.Shape)})
@@ -296,4 +304,28 @@ func init() {
 		}
 		register(f)
 	}
+}
+
+// RSAParams builds parameters of one of the four RSA families for an arbitrary modulus size (e = 65537;
+// rep selects the variant / KID strategy as in Rep).
+func RSAParams(f *Family, bits, rep int) (key.Parameters, ref.KSVariant, error) {
+	switch f.Name {
+	case "RsaSsaPkcs1":
+		v := []int{1, 4, 2, 3}[rep%4]
+		p, err := rsassapkcs1.NewParameters(bits, rsassapkcs1.SHA256, 65537, rsassapkcs1.Variant(v))
+		return p, var5[v], err
+	case "RsaSsaPss":
+		v := []int{1, 4, 2, 3}[rep%4]
+		p, err := rsassapss.NewParameters(rsassapss.ParametersValues{ModulusSizeBits: bits, SigHashType: rsassapss.SHA256, MGF1HashType: rsassapss.SHA256, PublicExponent: 65537, SaltLengthBytes: 32}, rsassapss.Variant(v))
+		return p, var5[v], err
+	case "JwtRsaSsaPkcs1":
+		s := []int{1, 2, 3}[rep%3]
+		p, err := jwtrsassapkcs1.NewParameters(jwtrsassapkcs1.ParametersOpts{ModulusSizeInBits: bits, PublicExponent: 65537, Algorithm: jwtrsassapkcs1.RS256, KidStrategy: jwtrsassapkcs1.KIDStrategy(s)})
+		return p, varKID[s], err
+	case "JwtRsaSsaPss":
+		s := []int{1, 2, 3}[rep%3]
+		p, err := jwtrsassapss.NewParameters(jwtrsassapss.ParametersOpts{ModulusSizeInBits: bits, PublicExponent: 65537, Algorithm: jwtrsassapss.PS256, KidStrategy: jwtrsassapss.KIDStrategy(s)})
+		return p, varKID[s], err
+	}
+	return nil, ref.KSRaw, fmt.Errorf("keycat: %s is not an RSA family", f.Name)
 }
